@@ -31,7 +31,8 @@ CallGuard(c) ==
   /\ c.route \in {"single", "batch", "front"} /\ c.method \in {"sobol", "kgf"}
   /\ CallInDomain(c)
   /\ NumPoints(c) <= 257
-  /\ InIndexRange(IndexOfSeed(FirstSeed(c) + NumPoints(c) - 1))
+  /\ (c.method = "sobol" => InIndexRange(IndexOfSeed(FirstSeed(c) + NumPoints(c) - 1)))
+  /\ (c.method = "kgf" => FirstSeed(c) + NumPoints(c) - 1 <= 1000512)
   /\ (c.method = "sobol" => DimOf(c) <= Len(Poly) /\ DimOf(c) <= 1000)
   /\ (c.method = "kgf" => DimOf(c) <= 64)
 TraceGuard(t) == \A k \in DOMAIN t.calls : CallGuard(t.calls[k])
